@@ -1,7 +1,9 @@
 """C20 level-2 validation: apply hand-made breaking changes to lib/chibi/regexp.scm of a scratch worktree, one at a time,
 run ./check C20 on it and print the verdict and the first failing case per signature; the file is restored afterwards.
 usage:  python3 harness/c20_mutants.py [name ...]        (environment: WT = worktree with the C20 fix patches applied,
-        default /tmp/wt-C20; VERIF_SCRATCH default /var/tmp/verif-C20).  Expected: rc 1 for every mutant."""
+        default /tmp/wt-C20; VERIF_SCRATCH default /var/tmp/verif-C20; evidence goes to $VERIF_SCRATCH/evidence, never to
+        /verif/evidence).  Expected: rc 1 for every mutant.
+   R* = regression of change classes written by others and caught; E* = round-3 changes aimed at the engine."""
 import subprocess, sys, json, glob, os, shutil
 WT=os.environ.get('WT','/tmp/wt-C20')
 F=WT+'/lib/chibi/regexp.scm'
@@ -36,24 +38,58 @@ MUTS={
  'M8-search-stops-early': ("""                      (string-cursor>? (searcher-start-match searcher)
                                        accept-start))""","""                      (string-cursor>=? (searcher-start-match searcher)
                                         accept-start))"""),
+ 'R1-or-right-to-left': ("""           (let* ((n1 (->rx (cadr sre) flags next))
+                  (n2 (->rx (cons 'or (cddr sre)) flags next)))
+             (make-fork-state n1 n2 (next-id))))))""","""           (let* ((n2 (->rx (cons 'or (cddr sre)) flags next))
+                  (n1 (->rx (cadr sre) flags next)))
+             (make-fork-state n1 n2 (next-id))))))"""),
+ 'R2-strip-submatches-first-element-only': ("""        (($ submatch) (strip-submatches (cons ': (cdr sre))))""","""        (($ submatch) (strip-submatches (list ': (cadr sre))))"""),
+ 'E1-star-prefers-skipping': ("""                (n1 (make-fork-state (->rx (cons 'seq (cdr sre)) flags n2)
+                                     n2 (next-id))))
+           (state-next2-set! n2 n1)
+           n1))
+        ((+ one-or-more)""","""                (body (->rx (cons 'seq (cdr sre)) flags n2))
+                (n1 (make-fork-state n2 body (next-id))))
+           (state-next2-set! n2 n1)
+           n1))
+        ((+ one-or-more)"""),
+ 'E3-no-start-searcher-at-end-of-string': ("""       ((or search? (and init? (string-cursor=? i from)))
+        (posse-advance! searchers1""","""       ((or (and search? (string-cursor<? i end)) (and init? (string-cursor=? i from)))
+        (posse-advance! searchers1"""),
+ 'E5-merge-first-arrival-wins': ("""  (let ((m (regexp-match-max (searcher-matches sr1) (searcher-matches sr2))))
+    (if (not (eq? m (searcher-matches sr1)))""","""  (let ((m (searcher-matches sr1)))
+    (if (not (eq? m (searcher-matches sr1)))"""),
+ 'E9-epsilons-not-cleared-between-searchers': ("""               (posse-advance! searchers2 epsilons state sr str i2 start end
+                               (not search?))
+               (posse-clear! epsilons))))""","""               (posse-advance! searchers2 epsilons state sr str i2 start end
+                               (not search?)))))"""),
+ 'E10-plus-loops-to-second-state': ("""                (n1 (->rx (cons 'seq (cdr sre)) flags n2)))
+           (state-next2-set! n2 n1)
+           n1))""","""                (n1 (->rx (cons 'seq (cdr sre)) flags n2)))
+           (state-next2-set! n2 (or (and n1 (not (state-chars n1)) (not (state-match n1)) (state-next1 n1)) n1))
+           n1))"""),
 }
 which = sys.argv[1:] or list(MUTS)
 orig=open(F).read()
-env=dict(os.environ, VERIF_REPO=WT, VERIF_SCRATCH=os.environ.get('VERIF_SCRATCH','/var/tmp/verif-C20'))
+SCR=os.environ.get('VERIF_SCRATCH','/var/tmp/verif-C20')
+EVD=os.path.join(SCR,'evidence')
+env=dict(os.environ, VERIF_REPO=WT, VERIF_SCRATCH=SCR, VERIF_EVIDENCE_DIR=EVD)
 for name in which:
     a,b=MUTS[name]
     assert orig.count(a)==1, name
     open(F,'w').write(orig.replace(a,b))
     try:
-        r=subprocess.run(['./check','C20'],cwd=os.path.dirname(os.path.dirname(os.path.abspath(__file__))),env=env,capture_output=True,text=True,timeout=1500)
+        for f in glob.glob(os.path.join(EVD,'replay','C20-*.json')):
+            os.unlink(f)
+        r=subprocess.run(['./check','C20','--tier','quick'],cwd=os.path.dirname(os.path.dirname(os.path.abspath(__file__))),env=env,capture_output=True,text=True,timeout=1500)
         print('==',name,'rc',r.returncode, r.stdout.strip().split('\n')[-1])
-        for f in sorted(glob.glob(os.path.join(os.path.dirname(os.path.dirname(os.path.abspath(__file__))),'evidence','replay','C20-*.json'))):
+        for f in sorted(glob.glob(os.path.join(EVD,'replay','C20-*.json')))[:12]:
             j=json.load(open(f))
             if 'signature' in j:
                 c=j['failing_cases'][0]
                 print('    ',j['signature'], j['count'], c['input'].get('sre'), c['input'].get('string'), 'obs', c['observed'], 'exp', c['expected'])
             else:
-                print('    UNPROVED', [u['name'] for u in j['no_longer_checks']][:5])
+                print('    UNPROVED', [(u['name'], u.get('reason','')[:300]) for u in j['no_longer_checks']][:3])
     finally:
         open(F,'w').write(orig)
     sys.stdout.flush()
